@@ -1,17 +1,17 @@
 CONSTANTS
-  Req <- Ids
-  Prio <- PrioC
-  Ttl <- TtlC
+  Req <- Req3
+  Prio <- PrioA
+  Ttl <- TtlA
   Quota = 1
-  W = 4
+  W = 2
   QSize = 2
-  MaxNow = 40
+  MaxNow = 6
   KF_C10_LostHandoff = FALSE
-  KF_Overtake = FALSE
+  KF_Overtake = TRUE
   TtlPeek = FALSE
   Driver = TRUE
   KeepHist = TRUE
-  GenDepth = 22
 SPECIFICATION Spec
-INVARIANT Emit
+VIEW ViewD
+INVARIANTS CxPOk
 CHECK_DEADLOCK FALSE
